@@ -1,6 +1,6 @@
 (* Properties_C07.v — the theorems that decide property C07 on the model, each stated in full and closed by
    `exact <lemma>`; the lemmas live in the Proofs_*.v files.  Nothing else belongs in this file. *)
-From Theo Require Import Base Tokens MacroExtract Parser VMModel VMSpec VMStatements RefSem SemStatements Proofs_Sem C07Statements Regex Errors Lexer Scan Grammar LR MacroApply GenModel Compile RefSemChk C01Statements C01Stages C01Stages3 C01Stages4 Gen_Lexer Gen_Consts Proofs_C07.
+From Theo Require Import Base Tokens MacroExtract Parser VMModel VMSpec VMStatements RefSem SemStatements Proofs_Sem C07Statements Regex Errors Lexer Scan Grammar LR MacroApply GenModel Compile RefSemChk C01Statements C01Stages C01Stages3 C01Stages4 Gen_Lexer Gen_Consts Proofs_C07 Proofs_Stage5 Stage5Statements RefHaltStatements.
 Local Open Scope Z_scope.
 
 
@@ -29,3 +29,27 @@ Theorem C07_no_hidden_stops :
     In (l, vs) trace -> fst l <> hidden_file.
 Proof. exact C07_no_hidden_stops_proof. Qed.
 Print Assumptions C07_no_hidden_stops.
+
+Theorem C07_calls :
+  forall root r rs fuel rviews steps trace,
+    canonical4 root = true -> headers_ok root = true -> lexable_names root = true ->
+    gen true [] (Some root) = Ok r -> gr_ok r = true ->
+    abstract_source (Some root) = Some rs ->
+    run_ref_chk fuel rs = OStop rviews steps trace ->
+    trace_conclusion r trace rviews.
+Proof. exact C07_calls_proof. Qed.
+Print Assumptions C07_calls.
+
+Theorem C07_pipeline :
+  forall files main c p root rs fuel rviews steps trace,
+    compile files main = Ok c -> cr_ok c = true ->
+    parse files main = Ok p -> pr_root p = Some root ->
+    canonical4 root = true -> lexable_names root = true ->
+    abstract_source (Some root) = Some rs ->
+    run_ref_chk fuel rs = OStop rviews steps trace ->
+    exists n tr s vmviews,
+      step_trace n (setSteppingMode (init (cr_prog c)) true) = Ok (tr, s, true) /\
+      Forall2 stop_agrees tr trace /\
+      views s = Ok vmviews /\ Forall2 view_agrees vmviews rviews.
+Proof. exact C07_pipeline_proof. Qed.
+Print Assumptions C07_pipeline.
